@@ -176,7 +176,9 @@ class SparselyBin(Factory, Container):
 
     @inheritdoc(Container)
     def zero(self):
-        return SparselyBin(self.binWidth, self.quantity, self.value, self.nanflow.zero(), self.origin)
+        out = SparselyBin(self.binWidth, self.quantity, self.value, self.nanflow.zero(), self.origin)
+        out.contentType = self.contentType
+        return out
 
     @inheritdoc(Container)
     def __add__(self, other):
@@ -199,6 +201,7 @@ class SparselyBin(Factory, Container):
                 self.origin,
             )
             out.entries = self.entries + other.entries
+            out.contentType = self.contentType
             out.bins = {}
             for i in set(self.bins).union(other.bins):
                 if i in self.bins and i in other.bins:
